@@ -499,6 +499,73 @@ def subdir_case(item):
 KINDS = ['do', 'done', 'unchanged', 'waiting', 'locked', 'unlocked', 'resumed', 'check', 'checked', 'error', 'warning', 'debug']
 
 
+def spelled_case(item):
+    """One dependency that writes to stderr, asked for by two scripts in different directories through different spellings of its
+    name (x from the top, ../x / an absolute path / a detour from sub/), the second request arriving while the dependency is being
+    built (a `locked` record) or after it is done: the viewer shows its lines once, under its own name, live and in the replay."""
+    _, spell, when, first, j, seed = item
+    files = {
+        'x.do': scen.TRACE_HDR + 'echo "S $1 $$ $PPID" >&9\necho "x#0 begin" >&2\nsleep 0.4\necho "x#1 end" >&2\necho x > "$3"\necho "E $1 $$ 0" >&9\n',
+        'a.do': scen.TRACE_HDR + 'echo "S $1 $$ $PPID" >&9\necho "a#0" >&2\nredo-ifchange x\necho "a#1" >&2\necho a > "$3"\necho "E $1 $$ 0" >&9\n',
+        'sub/b.do': scen.TRACE_HDR + 'echo "S $1 $$ $PPID" >&9\necho "sub/b#0" >&2\nsleep %s\nredo-ifchange "%s"\necho "sub/b#1" >&2\necho b > "$3"\necho "E $1 $$ 0" >&9\n'
+                    % ('0.15' if when == 'during' else '0.7', spell),
+    }
+    order = 'a sub/b' if first == 'a' else 'sub/b a'
+    files['all.do'] = scen.TRACE_HDR + 'echo "S $1 $$ $PPID" >&9\necho "all#0" >&2\nredo-ifchange %s\necho "all#1" >&2\necho all > "$3"\necho "E $1 $$ 0" >&9\n' % order
+    pj = scen.Project(files, 'c18p')
+    anoms = []
+    obs = dict(builds=0, spelled_cases=1)
+    exp = {'x': ['x#0 begin', 'x#1 end'], 'a': ['a#0', 'a#1'], 'sub/b': ['sub/b#0', 'sub/b#1'], 'all': ['all#0', 'all#1']}
+    try:
+        os.symlink('.', os.path.join(pj.top, 'same'))          # a second name of the top directory
+        for f in list(files):
+            if '$TOP' in files[f]:
+                common.write_file(os.path.join(pj.top, f), files[f].replace('$TOP', pj.top))
+        r, _ = pj.run(['redo', '-j%d' % j, 'all'], extra={'REDO_PRETTY': '0'}, timeout=60, verif_log=False)
+        obs['builds'] += 1
+        text = r.err + r.out
+        if r.status != 'exit' or r.panicked():
+            return dict(verdict='inconclusive', why='build did not end normally (C09 matter)', sample=dict(item=list(item)))
+        if r.rc != 0:
+            anoms.append(dict(key='spelled:build-failed', what=text[-300:]))
+        met_locked = '@@REDO:locked:' in pj.logs_text() or '@@REDO:waiting:' in pj.logs_text()
+        obs['spelled_requests_that_met_the_lock'] = 1 if met_locked else 0
+        r2, _ = pj.run(['redo-log', '-r', '--no-pretty', 'all'], verif_log=False, timeout=60)
+        streams = [('live', text)]
+        if r2.rc == 0:
+            streams.append(('replay', r2.out))
+        else:
+            anoms.append(dict(key='spelled:replay-nonzero', what='redo-log -r all exits %s: %s' % (r2.rc, (r2.err + r2.out)[-300:])))
+        for what, stream in streams:
+            lines = [l.rstrip() for l in stream.split('\n')]
+            for n, ls in exp.items():
+                for l in ls:
+                    c = sum(1 for g in lines if g == l or g.endswith('@@ ' + l))
+                    if c != 1:
+                        anoms.append(dict(key='%s:line-count:dependency-reached-through-two-spellings' % what,
+                                          what='%r (written once by %s) appears %d times in the %s output; second request spelled %r, %s the build of x, %s shown first'
+                                               % (l, n, c, what, spell, when, first)))
+            per, recs, problems = attribute(stream)
+            per = {os.path.normpath(k): [g.rstrip() for g in v] for k, v in per.items()}
+            for n, got in per.items():
+                for g in got:
+                    m = re.match(r'^(\S+)#\d', g)
+                    if m and m.group(1) != n and not anoms:
+                        anoms.append(dict(key='%s:line-under-wrong-target:dependency-reached-through-two-spellings' % what,
+                                          what='%r is shown under %r (second request spelled %r, %s the build of x)' % (g, n, spell, when)))
+            obs['spelled_lines_attributed'] = obs.get('spelled_lines_attributed', 0) + sum(len(v) for v in per.values())
+    finally:
+        pj.close()
+    res = dict(verdict='violated' if anoms else 'held', nontrivial=True, shape=common.shash(list(item)),
+               sample=dict(kind='dependency-through-two-spellings', spelling=spell, when=when, first=first, j=j), obs=obs,
+               sets=dict(segments=['two-spellings:' + when]))
+    if anoms:
+        seen = set()
+        res['violations'] = [a for a in anoms if not (a['key'] in seen or seen.add(a['key']))]
+        res['replay'] = dict(kind='spelled', item=list(item))
+    return res
+
+
 def direct_case(item):
     _, seed, n = item
     rnd = random.Random(seed)
@@ -600,6 +667,8 @@ def dispatch(item):
         return hist_case(item[1])
     if item[0] == 'subdir':
         return subdir_case(item)
+    if item[0] == 'spelled':
+        return spelled_case(item)
     return direct_case(item) if item[0] == 'direct' else case(item)
 
 
@@ -610,7 +679,7 @@ RULE = ('generated graphs of 3-25 writer scripts (nested and shared children) at
         'top-level command and the output of `redo-log -r --no-pretty` (from the project top and from a sub-directory) are attributed to '
         'targets by the do/resumed/done records (a record may be glued to an unterminated line); for every script that ran to its end the '
         'attributed lines must equal the written ones exactly (after trailing-whitespace stripping), no id-ed line may appear under another '
-        'target, each executed target has one do and one done record with its exit status. Direct layer: format->parse round trips of the '
+        'target, each executed target has one do and one done record with its exit status. Two-spellings layer: a dependency that writes to stderr is asked for from two directories through different spellings (x, ../x, absolute, detours, a symlinked name of the directory), the second request during or after its build: each of its lines appears once, under its own name, live and in the replay. Direct layer: format->parse round trips of the '
         'record type for the fixed kind vocabulary x pids x timestamps x texts (incl. "@@ ", "@@REDO:", ":", unicode), plus the same under '
         'Miri (thorough).')
 ASSUME = ['script output that contains a syntactically valid record is in-band forgery and is not generated', 'pretty mode is presentation and is not compared',
@@ -631,6 +700,11 @@ def main(tier):
         for depth in (1, 2):
             for rep in range(1 if quick else 5):
                 items.append(('subdir', j, depth, rep))
+    for spell in ('../x', '$TOP/x', '../sub/../x', '../same/x', '.././x'):
+        for when in ('during', 'after'):
+            for first in ('a', 'sub/b'):
+                for rep in range(1 if quick else 4):
+                    items.append(('spelled', spell, when, first, rnd.choice([2, 3, 4]), rep))
     for i in range(40 if quick else 800):
         items.append(('hist', common.seed() * 100003 + (0 if quick else 50000) + i))
     for i in range(4 if quick else 60):
